@@ -307,6 +307,60 @@ def rule_6(ctx):
     ctx.floor(len(table) + 7, 'rounding / power witnesses')
 
 
+def _ulps(got, want):
+    import math
+    if got == want:
+        return 0.0
+    if want == 0 or not math.isfinite(want) or not math.isfinite(got):
+        return float('inf')
+    return abs(got - want) / math.ulp(want)
+
+
+def rule_7(ctx):
+    """Reference values at witness points away from the textbook ones - large magnitudes, quotients of a billion and more, angles of
+    thousands of turns, arguments next to a whole number - one construct per row: each function as the evaluator calls it (the
+    registered object; numpy modelled as IEEE arithmetic on Python floats, decimal arithmetic folded) against the exact decimal
+    rounding / the correctly rounded reference of Python's math library, to within 4 units in the last place."""
+    import math
+    from . import values as V
+    exact = [
+        ('FLOOR', (1234567890.6, 1), 1234567890), ('FLOOR', (1.9999999996, 1), 1), ('FLOOR', (5000000000.7, 2), 5000000000), ('FLOOR', (999999999.9999, 1), 999999999),
+        ('FLOOR', (-1234567890.4, 1), -1234567891), ('FLOOR', (123456789.123, 0.5), 123456789.0), ('FLOOR', (2.5, 1), 2), ('FLOOR', (-2.5, -1), -2),
+        ('CEILING', (1234567890.4, 1), 1234567891), ('CEILING', (1.0000000004, 1), 2), ('CEILING', (5000000000.2, 2), 5000000002), ('CEILING', (-1234567890.4, 1), -1234567890),
+        ('TRUNC', (1234567890.6,), 1234567890), ('TRUNC', (1234567890.678, 2), 1234567890.67), ('EVEN', (1234567891.2,), 1234567892), ('INT', (1234567890.9999,), 1234567890),
+        ('MOD', (10000000000.5, 3), 1.5), ('MOD', (-7, 3), 2), ('MOD', (7, -3), -2), ('FACT', (20,), 2432902008176640000), ('FACTDOUBLE', (11,), 10395),
+        ('ABS', (-1e300,), 1e300), ('SIGN', (-1e-300,), -1), ('LOG', (8, 2), 3.0), ('ROUND', (1234567890.5, 0), 1234567891), ('ROUNDDOWN', (-1234567890.55, 1), -1234567890.5),
+    ]
+    close = [('SIN', (x,), math.sin(x)) for x in (1e6, 1e9, 12345.678, -98765.4321, 710.0, 0.5, 3.0, 6.2, 7.0, 100.0, 2 * math.pi, -4e3)]
+    close += [('COS', (x,), math.cos(x)) for x in (1e5, 1e9, 12345.678, -98765.4321, 710.0, 0.5, 3.0, 6.3, 44.0, 1e4)]
+    close += [('TAN', (x,), math.tan(x)) for x in (12345.678, 1e6, -98765.4321, 0.5, 3.0, 7.0, 1e3)]
+    close += [('DEGREES', (1e6,), math.degrees(1e6)), ('RADIANS', (1e6,), math.radians(1e6)), ('ATAN', (1e6,), math.atan(1e6)), ('ACOS', (0.5,), math.acos(0.5)),
+              ('ASIN', (-0.25,), math.asin(-0.25)), ('EXP', (10,), math.exp(10)), ('EXP', (-700,), math.exp(-700)), ('LN', (1e10,), math.log(1e10)),
+              ('LOG10', (12345.678,), math.log10(12345.678)), ('SQRT', (2,), math.sqrt(2)), ('SQRT', (1e-300,), math.sqrt(1e-300)), ('COSH', (3,), math.cosh(3)),
+              ('ASINH', (3,), math.asinh(3)), ('ACOSH', (3,), math.acosh(3)), ('POWER', (2.5, 3.5), 2.5 ** 3.5), ('ATAN2', (1, 2), math.atan2(2, 1)),
+              ('ATAN2', (-3, 1e-9), math.atan2(1e-9, -3)), ('LOG', (1e10, 7), math.log(1e10, 7))]
+    models = V.numpy_models()
+    n = 0
+    for name, args, want in exact + close:
+        try:
+            f = V.registered(ctx, name)
+        except Exception:       # noqa: BLE001 - not registered in this tree: nothing to decide
+            continue
+        out = V.call(ctx, name, [V.num(a) for a in args], models=models)
+        got = V.norm(out.value) if out.end == 'return' else f'<{out.end} {V.norm(out.value)!r}>'
+        if isinstance(got, tuple) and got and got[0] == 'Number':
+            got = got[1]
+        is_num = isinstance(got, (int, float)) and not isinstance(got, bool)
+        tol = 0 if (name, args, want) in exact else 4
+        ok = is_num and _ulps(float(got), float(want)) <= tol
+        n += 1
+        ctx.expect(ok, f.node, f'{name}({", ".join(map(repr, args))})',
+                   f'{name}({", ".join(map(repr, args))}) gives {got!r}, the reference value is {want!r}'
+                   + (f' ({_ulps(float(got), float(want)):.3g} units in the last place away)' if is_num else '')
+                   + ': the decimal rounding in Excel\'s direction / the correctly rounded IEEE value, for every magnitude')
+    ctx.floor(70, 'reference rows')
+
+
 RULES = [
     ('C16.1', 'domain guards at critical points', rule_1),
     ('C16.2', 'rounding directions', rule_2),
@@ -314,4 +368,5 @@ RULES = [
     ('C16.4', 'ATAN2 argument binding', rule_4),
     ('C16.5', 'local rounding context (shared with C05.4)', rule_5),
     ('C16.6', 'rounding family and POWER on witness arguments through the registered wrapper', rule_6),
+    ('C16.7', 'reference values at witness points of large magnitude, row by row', rule_7),
 ]
